@@ -13,6 +13,7 @@ CHECKS = {
     "C01": _lazy("resolve", "run_c01"),
     "C02": _lazy("resolve", "run_c02"),
     "C03": _lazy("resolve", "run_c03"),
+    "C06": _lazy("resolve", "run_c06"),
     "C09": _lazy("resolve", "run_c09"),
     "C10": _lazy("resolve", "run_c10"),
     "C11": _lazy("resolve", "run_c11"),
